@@ -131,6 +131,12 @@ class Lib:
             r.__dict__.update(a.__dict__)
             r.term = z3.If(c, a.term, b.term)
             return r
+        if isinstance(a, Ref) and isinstance(b, Ref):
+            oa, ob = run.deref(a), run.deref(b)
+            if isinstance(oa, MapO) and isinstance(ob, MapO) and set(oa.cols) == set(ob.cols):
+                m = MapO(z3.If(c, oa.keys, ob.keys), {k: z3.If(c, oa.cols[k], ob.cols[k]) for k in oa.cols}, oa.vkinds,
+                         oa.record_cls)
+                return run.st.alloc(m)
         raise Unsupported('ite over %r / %r' % (a, b))
 
     def unpack(self, run, v, n):
@@ -320,6 +326,14 @@ class Lib:
     # ---------------------------------------------------------------------------------- getattr
     def getattr(self, run, base, obj, attr):
         if isinstance(base, LibRef) and base.recv is None:
+            if base.name == 'np' and attr == 'nan':
+                return Num(NAN)
+            if base.name == 'np' and attr == 'inf':
+                return Num(z3.Const('INF', Real))
+            if base.name == 'np' and attr == 'newaxis':
+                return NONE
+            if base.name == 'math' and attr == 'nan':
+                return Num(NAN)
             return LibRef(base.name + '.' + attr)
         if isinstance(base, EntryRef):
             return self.entry_get(run, base, attr)
@@ -424,6 +438,10 @@ class Lib:
                 return SeqV('A', T.asel(s.term, key.term))
         if isinstance(key, tuple) and key[0] == 'slice':
             return self.seq_slice(run, s, key)
+        if isinstance(key, tuple) and key[0] == 'tuple' and len(key[1]) == 2 and isinstance(key[1][0], NoneV) \
+                and key[1][1] == ('slice', None, None, None) and s.kind == 'R':
+            from .libcalls import row1
+            return MatV(row1(s.term))          # row[np.newaxis, :]
         if isinstance(key, SeqV) and key.kind == 'I' or isinstance(key, TupleV) and len(key.items) == 1:
             idx = key if isinstance(key, SeqV) else key.items[0]
             return self.seq_take(run, s, idx)
@@ -674,7 +692,9 @@ class Lib:
             if isinstance(other, OptArmV):
                 return other.term == OptArm.none
             if isinstance(other, (SeqV, MatV)):
-                return other.term == none_const(other.term.sort())
+                if other.maybe_none:
+                    return other.term == none_const(other.term.sort())
+                return z3.BoolVal(False)
             return z3.BoolVal(False)
         if isinstance(a, Ref) and isinstance(b, Ref):
             return z3.BoolVal(a.loc == b.loc)
